@@ -317,6 +317,27 @@ def solve_obligation(ob, timeout_ms, use_cvc5=True):
         if s2.check() == z3.unsat:
             return {'status': 'discharged', 'backend': 'z3(retry)', 'time_s': round(time.time() - t0, 3)}
         res['time_s'] = round(time.time() - t0, 3)
+    if res['status'] == 'unknown':
+        # z3 does not answer `sat` in the presence of quantified facts.  A CANDIDATE counter-model: the
+        # negated goal with the quantifier-free part of the path condition only, small sizes.  It proves
+        # nothing by itself (the path condition was weakened); it becomes a violation only if the native
+        # replay on the real code confirms it.
+        try:
+            from .interp import has_quantifier
+            s3 = z3.Solver()
+            s3.set('timeout', 8000)
+            for c_ in ob.pc:
+                if not has_quantifier(c_):
+                    s3.add(c_)
+            s3.add(z3.Not(g))
+            if s3.check() == z3.sat:
+                m = s3.model()
+                m = _small_model(s3, m) or m
+                from .replay import concretize
+                res['inputs'] = concretize(m)
+                res['candidate'] = 'model of the negated goal under the quantifier-free part of the path condition'
+        except Exception:  # noqa: BLE001
+            pass
     return res
 
 
